@@ -1,6 +1,6 @@
 From Coq Require Import List NArith Bool Sorted.
 From V.gen Require Consts.
-From V.Ts Require Import Model Proofs Answers Report ReportProofs.
+From V.Ts Require Import Model Proofs Answers Report ReportProofs ReportDead ReportDeadProofs.
 Import ListNotations.
 Open Scope N_scope.
 From V.C08 Require Import Properties.
@@ -102,6 +102,31 @@ Check (C08_open_answered_when_delivered :
   (count_occ N.eq_dec (ans_ids (concat (run (init ka T n0) tr))) id <= 1)%nat /\
   (count_occ N.eq_dec (ans_ids (concat (run (init ka T n0) tr))) id = 1%nat \/
    exists dt' p, In (dt', EClosed p c) tr)).
+Check (C08_report_layer_conservative :
+  forall l s bs,
+  all_base l = Some bs ->
+  dfinal (mkD s [] []) l = mkD (rfinal s bs) [] [] /\ drun (mkD s [] []) l = map lift (rrun s bs)).
+Check (C08_established_meets_dead_protocol :
+  forall d c mask,
+  d_dead d <> [] -> busy (d_s d) c = false -> existsb (N.eqb c) (d_gone d) = false ->
+  let d' := fst (dstep d (DEst c mask)) in
+  do_code (snd (dstep d (DEst c mask))) = 3 /\
+  d_dead d' = d_dead d /\ d_gone d' = c :: d_gone d /\
+  (forall p ch', nth_error (r_ch (d_s d')) p = Some ch' ->
+     exists ch, nth_error (r_ch (d_s d)) p = Some ch /\ rw ch' = rw ch /\ rdel ch' = rdel ch /\
+       (ch' = ch \/
+        (rq ch' = rq ch ++ [IEst c] /\ racc ch' = racc ch ++ [IEst c] /\
+         N.testbit mask (N.of_nat p) = true /\ is_dead d (N.of_nat p) = false /\
+         rw ch = [] /\ (length (rq ch) < r_cap (d_s d))%nat)))).
+Check (C08_no_closed_without_report :
+  forall d o c p ch ch',
+  nth_error (r_ch (d_s d)) p = Some ch -> nth_error (r_ch (d_s (fst (dstep d o)))) p = Some ch' ->
+  (forall b, o <> DBase (RClosed b)) ->
+  ~ In (IClosed c) (racc ch) -> ~ In (IClosed c) (racc ch')).
+Check (C08_dead_protocol_leak_witness :
+  let l := [DKill 0; DEst 7 2; DBase (RClosed 7); DBase (RDrain 1 9)] in
+  map do_code (drun (dinit 2 2) l) = [0; 3; 2; 0] /\
+  map do_got (drun (dinit 2 2) l) = [[]; []; []; [IEst 7]]).
 Check (C08_needs_two_per_peer :
   exists tr q,
   feasible 3 env0 (init true 1000 0) tr = true /\
